@@ -382,6 +382,13 @@ func (r *runner) disagree(src string) (bool, string) {
 	return true, classPair(impl, mo)
 }
 
+func clip(s string, n int) string {
+	if len(s) > n {
+		return s[:n] + "..."
+	}
+	return s
+}
+
 // one generated or corpus program
 func (r *runner) one(src string, kind string, feats map[string]bool) {
 	c := r.c
@@ -407,7 +414,7 @@ func (r *runner) one(src string, kind string, feats map[string]bool) {
 	if dflt.obs != impl.obs {
 		c.Count("registers-on-vs-off-differ")
 		if len(r.regDiffs) < 10 {
-			r.regDiffs = append(r.regDiffs, fmt.Sprintf("%q off=%s on=%s", src, impl.obs, dflt.obs))
+			r.regDiffs = append(r.regDiffs, fmt.Sprintf("src(hex)=%s off=%s on=%s", Hx([]byte(src)), clip(impl.obs, 80), clip(dflt.obs, 80)))
 		}
 	}
 	// determinism of the implementation on a fresh state (model-free)
@@ -415,7 +422,7 @@ func (r *runner) one(src string, kind string, feats map[string]bool) {
 		c.Fail("nondeterministic:"+constructs(prog), "EVAL "+Hx([]byte(src)), fmt.Sprintf("first %s then %s", impl.obs, again.obs))
 	}
 	c.Count("kind=" + kind)
-	c.Count("impl-outcome=" + impl.class)
+	c.Count("outcome:" + kind + "=" + impl.class)
 	if r.mp == nil {
 		c.Case(line, impl.obs)
 		return
@@ -443,12 +450,17 @@ func (r *runner) one(src string, kind string, feats map[string]bool) {
 	// disagreement: shrink, classify
 	pair := classPair(impl, mo)
 	small := src
-	if r.shrunk < 12 {
+	didShrink := false
+	if r.shrunk < 20 {
 		r.shrunk++
+		didShrink = true
 		small = r.shrink(src, pair)
 	}
 	sprog, _ := parseProgram(small)
 	sig := constructs(sprog) + ":" + pair
+	if !didShrink { // the shrinking budget of this run is used up: do not invent a construct list from a large program
+		sig = "unshrunk:" + pair
+	}
 	simpl, smo, _, _ := r.both(small)
 	detail := fmt.Sprintf("program %q: implementation %s (%s), reference %s; found as %q", small, simpl.obs, simpl.val, smo, src)
 	if why, ok := allowed(sig); ok {
@@ -761,14 +773,64 @@ func matrixOperands(thorough bool) [][3]string {
 	return out
 }
 
+// Frozen copy of the documented binding strengths (ast.Precedences at the time the reference was written).
+// It is NOT read from /repo: the direct oracle below states, on the implementation alone, that an
+// unparenthesised expression means the same as its parenthesisation under this table with left association.
+var refPrec = map[string]int{"||": 3, "&&": 4, ":": 4, "==": 6, "!=": 6, "<": 7, ">": 7, "<=": 7, ">=": 7,
+	"+": 8, "-": 8, "|": 8, "^": 8, "&": 9, "*": 9, "%": 9, "<<": 9, ">>": 9, "/": 10}
+
+// model-free: `x o1 y o2 z` against its explicit grouping
+func (r *runner) precOracle(prelude string, t [3]string, o1, o2 string) {
+	c := r.c
+	bare := prelude + t[0] + " " + o1 + " " + t[1] + " " + o2 + " " + t[2]
+	var grouped string
+	if refPrec[o2] > refPrec[o1] {
+		grouped = prelude + t[0] + " " + o1 + " (" + t[1] + " " + o2 + " " + t[2] + ")"
+	} else {
+		grouped = prelude + "(" + t[0] + " " + o1 + " " + t[1] + ") " + o2 + " " + t[2]
+	}
+	a, b := runImpl(bare, true), runImpl(grouped, true)
+	c.Eval()
+	if a.obs != b.obs {
+		c.Fail("precedence:"+o1+","+o2, "EVAL "+Hx([]byte(bare)), fmt.Sprintf("%q gives %s but %q gives %s", bare, a.obs, grouped, b.obs))
+	}
+}
+
+// prefix operators bind tighter than every infix operator and looser than call / index / dot
+func (r *runner) prefixOracle() {
+	c := r.c
+	prelude := "a=[3,5];m={\"k\":7};f=x=>x+1;t=true;n=4;"
+	pairs := [][2]string{
+		{"-n + 1", "(-n) + 1"}, {"-n * 2", "(-n) * 2"}, {"-n / 2", "(-n) / 2"}, {"-n % 3", "(-n) % 3"}, {"-n << 1", "(-n) << 1"},
+		{"-n == -4", "(-n) == (-4)"}, {"-n < 1", "(-n) < 1"}, {"~n & 3", "(~n) & 3"}, {"~n | 1", "(~n) | 1"}, {"~n ^ 1", "(~n) ^ 1"},
+		{"!t && t", "(!t) && t"}, {"!t || t", "(!t) || t"}, {"!t == t", "(!t) == t"}, {"-n : 1", "(-n) : 1"}, {"- -n", "-(-n)"}, {"-~n", "-(~n)"},
+		{"-a[0]", "-(a[0])"}, {"-a[1] + 1", "(-(a[1])) + 1"}, {"-m.k", "-(m.k)"}, {"-f(1)", "-(f(1))"}, {"!f(1) == 2", "(!(f(1))) == 2"},
+		{"-f(1) * a[0]", "(-(f(1))) * (a[0])"}, {"a[0] + a[1] * 2", "(a[0]) + ((a[1]) * 2)"}, {"m.k - f(2) / 3", "(m.k) - ((f(2)) / 3)"},
+		{"x1 = 1 + 2 * 3", "x1 = (1 + (2 * 3))"}, {"x1 = t || t && !t", "x1 = (t || (t && (!t)))"},
+		{"g = x => x + 1 * 2; g(1)", "g = (x => (x + (1 * 2))); g(1)"},
+	}
+	for _, p := range pairs {
+		x, y := runImpl(prelude+p[0], true), runImpl(prelude+p[1], true)
+		c.Eval()
+		if x.obs != y.obs {
+			c.Fail("precedence:prefix/call/index:"+strings.Fields(p[0])[0], "EVAL "+Hx([]byte(prelude+p[0])),
+				fmt.Sprintf("%q gives %s but %q gives %s", p[0], x.obs, p[1], y.obs))
+		}
+		r.one(prelude+p[0], "matrix-prefix", map[string]bool{"p": true, "q": true, "m": true})
+	}
+}
+
 func (r *runner) matrix(thorough bool) int {
 	n := 0
 	prelude := "a=(-9223372036854775807-1);b=(-1);"
 	ops := matrixOperands(thorough)
 	for _, o1 := range matrixOps {
 		for _, o2 := range matrixOps {
-			for _, t := range ops {
+			for i, t := range ops {
 				r.one(prelude+t[0]+" "+o1+" "+t[1]+" "+o2+" "+t[2], "matrix", map[string]bool{o1: true, o2: true, "m": true})
+				if thorough || i < 3 || i >= len(ops)-6 {
+					r.precOracle(prelude, t, o1, o2)
+				}
 				n++
 			}
 		}
@@ -781,6 +843,7 @@ func (r *runner) matrix(thorough bool) int {
 			}
 		}
 	}
+	r.prefixOracle()
 	return n
 }
 
@@ -838,9 +901,9 @@ func runC01(c *Ctx) {
 	for _, src := range corpus {
 		r.one(src, "corpus", map[string]bool{"corpus": true, "a": true, "b": true})
 	}
-	nprog, nwrap := 700, 150
+	nprog, nwrap := 3000, 500
 	if c.Thorough() {
-		nprog, nwrap = 30000, 3000
+		nprog, nwrap = 60000, 5000
 	}
 	nm := r.matrix(c.Thorough())
 	c.Extra["operator_pair_matrix_cases"] = nm
